@@ -10,7 +10,7 @@
    parts as sequences). *)
 From Coq Require Import ZArith QArith List Lia Permutation.
 Import ListNotations.
-Require Import C20_Model C20_Locate C20_Combi C20_Affine C20_Proofs.
+Require Import C20_Model C20_Locate C20_Combi C20_Affine C20_Iter C20_Proofs.
 Local Open Scope Z_scope.
 
 (* ================================================================== vertices (every dimension) *)
@@ -128,6 +128,14 @@ Theorem C20_ordered_set_partition_iterator_le5 : forall n k, (1 <= k <= n)%nat -
   Permutation (osp_iter n k) (osp n k).
 Proof. exact osp_iter_enumerates_osp_le5. Qed.
 Print Assumptions C20_ordered_set_partition_iterator_le5.
+
+(* the state machine of Coface_iterator::increment (odometer over the ordered-set-partition iterators with
+   reinitialize(), then the next integer combination) enumerates exactly the set-level [cofaces] the theorems above
+   speak about; by computation over all ordered partitions, ambient dimension <= 5 (bound in the statement), every vertex *)
+Theorem C20_coface_iterator_state_machine_le5 : forall s l, (1 <= length (fst s) <= 5)%nat ->
+  valid_simplex s = true -> sorted_parts s -> Permutation (cofaces_iter l s) (cofaces l s).
+Proof. exact cofaces_iter_perm_valid_le5. Qed.
+Print Assumptions C20_coface_iterator_state_machine_le5.
 
 (* ================================================================== locate_point (every dimension) *)
 (* the located simplex has the point as a strictly positive convex combination of its vertices *)
